@@ -31,7 +31,7 @@ def run(ck, prog):
     ck.attempt(_commit_order, ck, prog)
     ck.attempt(_palette, ck, prog)
     ck.attempt(_tables, ck, prog)
-    check_api(ck, prog, [("get_HTMLColorString", "get_HTMLColorString", None)])
+    ck.attempt(check_api, ck, prog, [("get_HTMLColorString", "get_HTMLColorString", None)])
     f = prog.fn(SP, "SequenceParameters.set_HTMLColorResiduePalette")
     calls = [n for n in ast.walk(f.node) if isinstance(n, ast.Call)]
     ok = len(calls) == 1 and unparse(calls[0]) == "self.SeqObj.set_HTMLColorResiduePalette(%s)" % f.params()[1]
